@@ -174,7 +174,11 @@ ApplyMove(pos, m) ==
    side     |-> Other(pos.side),
    castling |-> IF k = KNull THEN pos.castling ELSE RightsAfter(pos.castling, s, d),
    ep       |-> IF k = KDouble THEN d ELSE -1,
-   hm       |-> IF k # KNull /\ (PieceOf(cell) = P \/ pos.cells[d] # 0) THEN 0
+   \* NULL MOVE (not a move of chess; the library offers it to engines): a deliberate transcription of
+   \* what the code does - its destination field is square 0 (a8), so the clock is reset exactly when a8
+   \* is occupied.  No listed property constrains this; it is modelled so that chains and walkers that
+   \* contain null moves can be followed.
+   hm       |-> IF (k # KNull /\ (PieceOf(cell) = P \/ pos.cells[d] # 0)) \/ (k = KNull /\ pos.cells[0] # 0) THEN 0
                 ELSE Min2(pos.hm + 1, MaxCounter),
    fm       |-> IF pos.side = Black THEN Min2(pos.fm + 1, MaxCounter) ELSE pos.fm]
 
